@@ -6,6 +6,8 @@ use std::ops::RangeBounds;
 
 mod contraction;
 pub(crate) use self::contraction::*;
+#[cfg(reinterpretcat_vrp_verif)]
+pub use self::contraction::{verif_contract_graph, verif_get_offset};
 
 mod network;
 pub use self::network::*;
